@@ -391,7 +391,9 @@ fn run(case: &Case, out: &mut Out) {
                     1 => Some(true),
                     _ => None,
                 };
-                let b = Backend::new(&format!("b{}", a[1].n()), addr_of(a[2].n()), sticky, lbp, backup);
+                let mut b = Backend::new(&format!("b{}", a[1].n()), addr_of(a[2].n()), sticky, lbp, backup);
+                // no wall-clock decay of the connection-time estimate: exp(-elapsed / inf) = 1 (public fields)
+                b.connection_time.decay = f64::INFINITY;
                 st.map.add_backend(&cluster_of(c), b);
                 let l = st.list(c);
                 let fresh = l.len() > before;
@@ -447,13 +449,19 @@ fn run(case: &Case, out: &mut Out) {
                     m.rebuild(&l.backends);
                     l.load_balancing = Box::new(m);
                 }
-                // the peak-EWMA connection time is wall-clock data: with that metric the pick of
-                // LeastLoaded / PowerOfTwo is only checked for membership, like Random's
-                let kind = if a[2].n() == 2 && (kind == Kind::Least || kind == Kind::P2c) { Kind::Random } else { kind };
+                // metric 2 is the peak-EWMA connection time: the driver switches the decay off on every backend
+                // it creates (PeakEWMA::decay = inf), so the cost is exactly (connections + 1) * peak rtt
                 st.kind[c as usize] = kind;
                 out.obs(&st.view(c));
             }
             // ---------------- per-backend state
+            "rtt" => {
+                // h nanoseconds: what a session reports after a backend connect (Backend::set_connection_time)
+                if let Some(h) = st.handles.get(a[0].n() as usize) {
+                    h.borrow_mut().set_connection_time(Duration::from_nanos(a[1].n() as u64));
+                }
+                out.obs(&[]);
+            }
             "closing" => {
                 st.handles[a[0].n() as usize].borrow_mut().set_closing();
                 out.obs(&[]);
@@ -760,7 +768,16 @@ fn run(case: &Case, out: &mut Out) {
                         // the coin is tossed between the two least loaded candidates
                         if let Some(l) = st.map.backends.get(&cname) {
                             let dbg = format!("{:?}", l.load_balancing);
-                            let m = |b: &B| if dbg.contains("Requests") { b.borrow().active_requests } else { b.borrow().active_connections };
+                            // ConnectionTime: (connections + 1) * peak rtt in ns (integers below 2^53: exact)
+                            let m = |b: &B| {
+                                if dbg.contains("Requests") {
+                                    b.borrow().active_requests as u128
+                                } else if dbg.contains("ConnectionTime") {
+                                    (b.borrow().active_connections as u128 + 1) * b.borrow().connection_time.rtt as u128
+                                } else {
+                                    b.borrow().active_connections as u128
+                                }
+                            };
                             let worst = picks.iter().filter(|p| **p >= 0).map(|p| m(&st.handles[*p as usize])).max();
                             if let Some(worst) = worst {
                                 for cnd in &cands {
